@@ -229,14 +229,15 @@ Section Optim.
             w_evals := flat_map (fun x => snd (opt_objective multinom fixed log_opt x)) (o_trace r);
             w_lo := lower; w_hi := upper; w_start := p0; w_oracle := r |}))).
 
-  Definition opt := opt_gen false false.
-  Definition opt_repaired := opt_gen true true.
+  (** the current code (both lines repaired, /repo commits c501335 and b08df5e) and the code of the snapshot *)
+  Definition opt := opt_gen true true.
+  Definition opt_snapshot := opt_gen false false.
 
   (** ** the scipy wrappers: one generic driver, one configuration per function, read off the source *)
   Inductive bmode := BNone     (* no bounds handed to the optimiser (fmin_bfgs, fmin, fmin_powell) *)
                    | BPlain    (* zip(_project_params_down(lower), _project_params_down(upper)) *)
                    | BLog      (* the same after numpy.log of the whole list (TypeError on a None entry) *)
-                   | BLogNone. (* repaired form: numpy.log entry by entry, None entries stay None *)
+                   | BLogNone. (* current form: numpy.log entry by entry, None entries stay None, then nan -> None *)
   Record wcfg := { wc_obj_log : bool;        (* objective is _object_func_log (exp of the argument) *)
                    wc_start_log : bool;      (* the start handed over is numpy.log(p0) *)
                    wc_ret_exp : bool;        (* xopt = _project_params_up(numpy.exp(xopt), ...) *)
@@ -246,12 +247,12 @@ Section Optim.
 
   Definition cfg_optimize            := {| wc_obj_log := false; wc_start_log := false; wc_ret_exp := false; wc_obj_bounds := true;  wc_oracle_bounds := BNone;  wc_ll_scale := true |}.
   Definition cfg_optimize_log        := {| wc_obj_log := true;  wc_start_log := true;  wc_ret_exp := true;  wc_obj_bounds := true;  wc_oracle_bounds := BNone;  wc_ll_scale := true |}.
-  (* Inference.py 1020-1021: fmin_l_bfgs_b(_object_func, numpy.log(p0), ...) -- as written *)
-  Definition cfg_optimize_lbfgsb     := {| wc_obj_log := false; wc_start_log := true;  wc_ret_exp := false; wc_obj_bounds := false; wc_oracle_bounds := BPlain; wc_ll_scale := true |}.
-  (* the repair: fmin_l_bfgs_b(_object_func, p0, ...) *)
-  Definition cfg_optimize_lbfgsb_repaired := {| wc_obj_log := false; wc_start_log := false; wc_ret_exp := false; wc_obj_bounds := false; wc_oracle_bounds := BPlain; wc_ll_scale := true |}.
-  Definition cfg_optimize_log_lbfgsb := {| wc_obj_log := true;  wc_start_log := true;  wc_ret_exp := true;  wc_obj_bounds := false; wc_oracle_bounds := BLog;   wc_ll_scale := true |}.
-  Definition cfg_optimize_log_lbfgsb_repaired := {| wc_obj_log := true;  wc_start_log := true;  wc_ret_exp := true;  wc_obj_bounds := false; wc_oracle_bounds := BLogNone; wc_ll_scale := true |}.
+  (* current code: fmin_l_bfgs_b(_object_func, p0, ...) *)
+  Definition cfg_optimize_lbfgsb     := {| wc_obj_log := false; wc_start_log := false; wc_ret_exp := false; wc_obj_bounds := false; wc_oracle_bounds := BPlain; wc_ll_scale := true |}.
+  (* the snapshot: fmin_l_bfgs_b(_object_func, numpy.log(p0), ...) *)
+  Definition cfg_optimize_lbfgsb_snapshot := {| wc_obj_log := false; wc_start_log := true;  wc_ret_exp := false; wc_obj_bounds := false; wc_oracle_bounds := BPlain; wc_ll_scale := true |}.
+  Definition cfg_optimize_log_lbfgsb := {| wc_obj_log := true;  wc_start_log := true;  wc_ret_exp := true;  wc_obj_bounds := false; wc_oracle_bounds := BLogNone; wc_ll_scale := true |}.
+  Definition cfg_optimize_log_lbfgsb_snapshot := {| wc_obj_log := true;  wc_start_log := true;  wc_ret_exp := true;  wc_obj_bounds := false; wc_oracle_bounds := BLog;   wc_ll_scale := true |}.
   Definition cfg_optimize_log_fmin   := {| wc_obj_log := true;  wc_start_log := true;  wc_ret_exp := true;  wc_obj_bounds := true;  wc_oracle_bounds := BNone;  wc_ll_scale := false |}.
   Definition cfg_optimize_log_powell := {| wc_obj_log := true;  wc_start_log := true;  wc_ret_exp := true;  wc_obj_bounds := true;  wc_oracle_bounds := BNone;  wc_ll_scale := false |}.
   Definition cfg_optimize_cons       := {| wc_obj_log := false; wc_start_log := false; wc_ret_exp := false; wc_obj_bounds := false; wc_oracle_bounds := BPlain; wc_ll_scale := true |}.
@@ -260,7 +261,10 @@ Section Optim.
 
   (** the bounds handed to the optimiser.  BPlain: `if lower_bound is None: lower_bound = [None]*len(p0)` then
       project down (scipy reads None as unbounded).  BLog: `numpy.log(lower_bound)` (TypeError on a None entry),
-      `lower_bound[numpy.isnan(lower_bound)] = None` leaves the nan in the float array, then project down. *)
+      `lower_bound[numpy.isnan(lower_bound)] = None` leaves the nan in the float array, then project down.
+      BLogNone (current code): `[None if _ is None else numpy.log(_) for _ in lower_bound]`, then
+      `[None if (_ is not None and numpy.isnan(_)) else _ for _ in lower_bound]` (log of a negative bound = nan becomes
+      "no bound"; log(0) = -inf stays), then project down; scipy reads None as unbounded. *)
   Definition oracle_bounds (m : bmode) (conv : option F -> xnum) (bnd : bounds) (n : nat) (fixed : fixedp)
     : option (list xnum) :=
     match m with
@@ -273,7 +277,10 @@ Section Optim.
                           else project_down (map (fun b => match b with Some x => xlog (XFin x) | None => XNaN end) l) fixed
               end
     | BLogNone => let l := match bnd with None => repeat None n | Some l => l end in
-                  project_down (map (fun b => match b with Some x => xlog (XFin x) | None => conv None end) l) fixed
+                  project_down (map (fun b => match b with
+                                                   | Some x => match xlog (XFin x) with XNaN => conv None | y => y end
+                                                   | None => conv None
+                                                   end) l) fixed
     end.
 
   Definition scipy_objective (cfg : wcfg) (lower upper : bounds) (multinom : bool) (fixed : fixedp)
@@ -299,7 +306,9 @@ Section Optim.
   Definition optimize            := scipy_wrapper cfg_optimize.
   Definition optimize_log        := scipy_wrapper cfg_optimize_log.
   Definition optimize_lbfgsb     := scipy_wrapper cfg_optimize_lbfgsb.
+  Definition optimize_lbfgsb_snapshot := scipy_wrapper cfg_optimize_lbfgsb_snapshot.
   Definition optimize_log_lbfgsb := scipy_wrapper cfg_optimize_log_lbfgsb.
+  Definition optimize_log_lbfgsb_snapshot := scipy_wrapper cfg_optimize_log_lbfgsb_snapshot.
   Definition optimize_log_fmin   := scipy_wrapper cfg_optimize_log_fmin.
   Definition optimize_log_powell := scipy_wrapper cfg_optimize_log_powell.
   Definition optimize_cons       := scipy_wrapper cfg_optimize_cons.
@@ -317,8 +326,8 @@ Section Optim.
             w_evals := flat_map (fun x => snd (grid_objective multinom fixed x)) (o_trace r);
             w_lo := []; w_hi := []; w_start := []; w_oracle := r |}.
 
-  Definition optimize_grid := optimize_grid_gen false.
-  Definition optimize_grid_repaired := optimize_grid_gen true.
+  Definition optimize_grid := optimize_grid_gen true.              (* current code (87150b4) *)
+  Definition optimize_grid_snapshot := optimize_grid_gen false.
 
   (** ** Misc.perturb_params  (Misc.py 106-131); [us] are the draws of numpy.random.uniform(size=len(params)) *)
   Definition c101 : F := nofZ 101 / nofZ 100.
@@ -340,8 +349,8 @@ Section Optim.
                 | Some ub => map (fun pb => match snd pb with Some b => nmin (fst pb) (shrink_hi repaired b) | None => fst pb end) (combine pnew ub)
                 end in
     pnew.
-  Definition perturb_params := perturb_gen false.
-  Definition perturb_params_repaired := perturb_gen true.
+  Definition perturb_params := perturb_gen true.                   (* current code (64356e4) *)
+  Definition perturb_params_snapshot := perturb_gen false.
 End Optim.
 
 Arguments XNaN {F}. Arguments XNegInf {F}. Arguments XPosInf {F}. Arguments XFin {F} x.
